@@ -84,6 +84,32 @@ def cls_of(s):
     return "plain"
 
 
+PATHQUERIES = ["/s?q=hello+world", "/s?a=1&b=x%2By", "/s?e=", "/s?k=a%20b+c&k2=%C3%A9", "/s?next=%2Fa%3Fb%3D1"]     # the query written inside the path
+
+
+def check_pathquery(method, pq):
+    """a request whose query is part of the path string: the server recovers the arguments the query string stands for"""
+    path, _, query = pq.partition("?")
+    want = dict(parse_qsl(query, keep_blank_values=True, encoding="utf-8"))
+    try:
+        msg = clienting.Requester(hostname="127.0.0.1", port=6101, method=method, path=pq).build()
+        rt = serving.Requestant(msg=bytearray(msg), remoter=SimpleNamespace(tymeout=1.0, ca=("127.0.0.1", 5)))
+        for _ in range(4):
+            if rt.parser is None:
+                break
+            rt.parse()
+        env = server().buildEnviron(rt)
+    except Exception as ex:
+        return [("path-query:raises:%s" % type(ex).__name__, "%s %r raised %r" % (method, pq, ex))]
+    got = dict(parse_qsl(env["QUERY_STRING"], keep_blank_values=True, encoding="utf-8"))
+    v = []
+    if got != want:
+        v.append(("path-query:arguments", "%s %r went out as %r: server recovers %r, the query stands for %r" % (method, pq, msg.split(b"\r\n")[0], got, want)))
+    if unquote(env["PATH_INFO"]) != path:
+        v.append(("path-query:path", "%s %r: PATH_INFO %r" % (method, pq, env["PATH_INFO"])))
+    return v
+
+
 PRIORS = [dict(method="POST", path="/prior", qargs={"p": "1"}, headers={"X-Prior": "p"}, fargs={"f": "g h"}),
           dict(method="PUT", path="/prior", qargs={}, headers={}, data={"prior": [1]}),
           dict(method="POST", path="/prior", qargs={"p": "q r"}, headers={"X-Prior": "p", "Content-Type": "text/x"}, body=b"prior-body")]
@@ -276,12 +302,18 @@ def run_job(job, tier, seed):
                     acc.case(case, "ok" if not viols else viols[0][0], viols, sample=dict(method=method, path=path, again=True, body_kind=bkind))
                 else:
                     acc.bulk(1, 1)
+    if pi == 0:
+        for k, pq in enumerate(PATHQUERIES):
+            viols = check_pathquery(method, pq)
+            acc.case(["pq", k, method], "ok" if not viols else viols[0][0], viols, sample=dict(method=method, path=pq))
     acc.r.obs.add(hash((method, pi)))
     return acc.result()
 
 
 def replay(job, case):
     import os
+    if case[0] == "pq":
+        return check_pathquery(case[2], PATHQUERIES[int(case[1])])
     if case[0] == "again":
         _, _z, method, pi, qs, hsel, bi = case
         return [("sent-again:" + k, m) for k, m in
